@@ -104,6 +104,9 @@ func (s Schema) check(format string) error {
 		walk(o.T, func(t Term) {
 			switch t.K {
 			case "scalar":
+				if _, isPattern := stringPattern(t); isPattern {
+					break // every format can express a string matching a regular expression
+				}
 				switch t.A {
 				case "string", "bool", "int64", "float64", "any", "datetime", "null":
 				case "int32", "float32":
@@ -223,6 +226,10 @@ func (s Schema) jsonTree(t Term, format, refPrefix string) *om {
 	oapi := format == "openapi"
 	switch t.K {
 	case "scalar":
+		if pat, ok := stringPattern(t); ok {
+			m.set("type", "string").set("pattern", pat)
+			break
+		}
 		switch t.A {
 		case "string", "datetime":
 			m.set("type", "string")
@@ -492,6 +499,10 @@ func (s Schema) cueType(t Term, usesStrings *bool) string {
 	var out string
 	switch t.K {
 	case "scalar":
+		if pat, ok := stringPattern(t); ok {
+			out = fmt.Sprintf("string & =~%q", pat)
+			break
+		}
 		switch t.A {
 		case "string":
 			out = "string"
